@@ -91,9 +91,10 @@ class SimTor:
         def write(data):
             ow(data)
             self._wbuf += data
-            while b'\r\n' in self._wbuf:
-                line, self._wbuf = self._wbuf.split(b'\r\n', 1)
-                self._on_command(line.decode('latin-1'))
+            # (Tor takes a command line to end at LF, with or without a CR before it)
+            while b'\n' in self._wbuf:
+                line, self._wbuf = self._wbuf.split(b'\n', 1)
+                self._on_command((line[:-1] if line.endswith(b'\r') else line).decode('latin-1'))
         self.tr.write = write
 
     # -- plumbing -----------------------------------------------------------------------------
